@@ -79,7 +79,7 @@ ENGINE_TRUSTED = [
     "goja (evaluation of the rendered programs), encoding/json; error texts normalised to one token; traces not modelled",
 ]
 
-def step_run(mode, M, V, NT=None, n=(1800, 80000), extra=None):
+def step_run(mode, M, V, NT=None, n=(1800, 40000), extra=None):
     evals = dict(M=M, V=V)
     counts = ()
     if NT:
@@ -88,10 +88,12 @@ def step_run(mode, M, V, NT=None, n=(1800, 80000), extra=None):
     if extra:
         evals.update(extra)
         counts = counts + tuple(k for k in extra if k in ("RA", "GM"))
+    # (one Go process generates and runs the cases: the thorough budget is sized for a loaded machine)
     return dict(component="step", require="Corr.StepCorr", require_vo="Corr/StepCorr.vo",
-                n=dict(quick=n[0], thorough=n[1]), shard=150, opts=dict(mode=mode), evals=evals, counts=counts)
+                n=dict(quick=n[0], thorough=n[1]), shard=150, opts=dict(mode=mode), evals=evals, counts=counts,
+                timeout=dict(quick=1500, thorough=10800))
 
-def walk_run(mode, M, V, NT=None, n=(480, 24000), extra=None):
+def walk_run(mode, M, V, NT=None, n=(480, 12000), extra=None):
     evals = dict(M=M, V=V)
     counts = ()
     if NT:
@@ -100,7 +102,8 @@ def walk_run(mode, M, V, NT=None, n=(480, 24000), extra=None):
     if extra:
         evals.update(extra)
     return dict(component="walk", require="Corr.StepCorr", require_vo="Corr/StepCorr.vo",
-                n=dict(quick=n[0], thorough=n[1]), shard=40, opts=dict(mode=mode), evals=evals, counts=counts)
+                n=dict(quick=n[0], thorough=n[1]), shard=40, opts=dict(mode=mode), evals=evals, counts=counts,
+                timeout=dict(quick=1500, thorough=10800))
 
 STEP_RULE = ("generated compiled specifications (1-4 nodes, 0-3 branches each, both branching types incl. the invalid "
              "action+message combination, patterns from the match generator, guards and actions from the action language as "
